@@ -146,6 +146,9 @@ func cmdVC(args []string) {
 				bad++
 			}
 			fmt.Printf("%s %-70s %-8s %-14s %.2fs\n", status, r.Obl.Name, r.Answer.Result, r.Answer.Solver, r.Answer.Secs)
+			if status == "FAIL" {
+				fmt.Printf("       at %s: %s\n", r.Obl.Pos, truncate(r.Obl.Clause, 150))
+			}
 			if *cross {
 				for _, x := range r.All {
 					fmt.Printf("       %-14s %-8s %.2fs\n", x.Solver, x.Result, x.Secs)
